@@ -574,6 +574,21 @@ impl Sim {
                     }
                 }
             }
+            // marker with history: every recorded (tick, value) is the server's value at that tick
+            if let Some(h) = cw.get::<HistVa>() {
+                for (t, v) in &h.0 {
+                    let t = wire::rel(t.get());
+                    if let Some(Some(Val::U(sv))) = self.snaps.get(&t).and_then(|ws| ws.get(s)).map(|sn| sn[K_VA].clone()) {
+                        self.obs.inc("marker_history_entries_compared");
+                        if sv != *v {
+                            errs.push((vec!["C02"], format!("client{ci}: {s} history records Va={v} for tick {t} but the server had {sv} at that tick")));
+                        }
+                    }
+                }
+                if h.0.windows(2).any(|w| w[1].0 < w[0].0) {
+                    self.obs.inc("marker_history_out_of_order_entries");
+                }
+            }
             // send-once components: value of the last full send up to the client's update tick
             if let Some(Val::U(x)) = get_kind(&cw, K_ONCE) {
                 if let Some(exp) = c.xon.get(&u).and_then(|m| m.get(s)) {
@@ -653,6 +668,30 @@ impl Sim {
         }
         let repl: Vec<(Entity, u32)> = std::mem::take(&mut c.app.world_mut().resource_mut::<Log>().replicated).into_iter().map(|(e, t)| (e, wire::rel(t))).collect();
         self.obs.add("entity_replicated_events", repl.len() as u64);
+        // C12 end to end, per-entity part: ConfirmHistory answers membership like the plain set of ticks
+        // for which the entity was reported as replicated (inside its 64-tick window)
+        for (e, t) in &repl {
+            c.conf_ticks.entry(*e).or_default().insert(*t);
+        }
+        {
+            let w = c.app.world();
+            c.conf_ticks.retain(|e, _| w.get_entity(*e).is_ok());
+            for (e, set) in &c.conf_ticks {
+                let Some(h) = w.get::<ConfirmHistory>(*e) else { continue };
+                let last = wire::rel(h.last_tick().get());
+                for t in last.saturating_sub(63)..=last {
+                    let got = h.contains(RepliconTick::new(wire::raw(t)));
+                    self.obs.inc("confirm_history_membership_checks");
+                    if got != set.contains(&t) {
+                        errs.push((
+                            vec!["C12"],
+                            format!("client{ci}: ConfirmHistory of {e} (last tick {last}) says contains({t}) = {got}, but the entity was{} reported as replicated for that tick", if got { " never" } else { "" }),
+                        ));
+                        break;
+                    }
+                }
+            }
+        }
         for (props, msg) in errs {
             self.viol(&props, msg);
         }
